@@ -34,6 +34,7 @@ PROJECTS_QUICK = [
      "edition": "2023_10"},
     "two_crates",
     "cycles",
+    "cycles_plain",
 ]
 PROJECTS_THOROUGH = PROJECTS_QUICK + [
     {"name": "account", "repo_path": CONTRACTS + "account.cairo", "starknet": True, "edition": "2024_07"},
@@ -57,6 +58,8 @@ def resolve_project(p):
         return dict(cdb_corpus.two_crate_project(), k="project")
     if p == "cycles":
         return dict(cdb_corpus.cycles_project(), k="project")
+    if p == "cycles_plain":
+        return dict(cdb_corpus.cycles_project(plain=True), k="project")
     q = dict(p, k="project")
     q["path"] = os.path.join(REPO, q.pop("repo_path"))
     if not os.path.exists(q["path"]):
